@@ -138,16 +138,23 @@ def afb1d(x, h0, h1, mode='zero', dim=-1):
             else:
                 x = torch.cat((x, x[:,:,:,-1:]), dim=3)
             N += 1
+        # The roll and the fold below wrap around only once, so a signal
+        # shorter than the filter is first tiled to at least the filter length
+        Nout = N//2
+        if N < L:
+            reps = -(-L // N)
+            x = torch.cat([x] * reps, dim=d)
+            N *= reps
         x = roll(x, -L2, dim=d)
         pad = (L-1, 0) if d == 2 else (0, L-1)
         lohi = F.conv2d(x, h, padding=pad, stride=s, groups=C)
         N2 = N//2
         if d == 2:
             lohi[:,:,:L2] = lohi[:,:,:L2] + lohi[:,:,N2:N2+L2]
-            lohi = lohi[:,:,:N2]
+            lohi = lohi[:,:,:Nout]
         else:
             lohi[:,:,:,:L2] = lohi[:,:,:,:L2] + lohi[:,:,:,N2:N2+L2]
-            lohi = lohi[:,:,:,:N2]
+            lohi = lohi[:,:,:,:Nout]
     else:
         # Calculate the pad size
         outsize = pywt.dwt_coeff_len(N, L, mode=mode)
@@ -250,6 +257,14 @@ def sfb1d(lo, hi, g0, g1, mode='zero', dim=-1):
     g0 = torch.cat([g0]*C,dim=0)
     g1 = torch.cat([g1]*C,dim=0)
     if mode == 'per' or mode == 'periodization':
+        # The fold and the roll below wrap around only once, so coefficients
+        # of a signal shorter than the filter are first tiled
+        Nout = N
+        if N < L:
+            reps = -(-L // N)
+            lo = torch.cat([lo] * reps, dim=d)
+            hi = torch.cat([hi] * reps, dim=d)
+            N *= reps
         y = F.conv_transpose2d(lo, g0, stride=s, groups=C) + \
             F.conv_transpose2d(hi, g1, stride=s, groups=C)
         if d == 2:
@@ -259,6 +274,8 @@ def sfb1d(lo, hi, g0, g1, mode='zero', dim=-1):
             y[:,:,:,:L-2] = y[:,:,:,:L-2] + y[:,:,:,N:N+L-2]
             y = y[:,:,:,:N]
         y = roll(y, 1-L//2, dim=dim)
+        if Nout < N:
+            y = y[:,:,:Nout] if d == 2 else y[:,:,:,:Nout]
     else:
         if mode == 'zero' or mode == 'symmetric' or mode == 'reflect' or \
                 mode == 'periodic':
